@@ -777,11 +777,14 @@ def tdb_rules(ctx, A):
         if len(c_['term']['args']) != 2:
             continue
         pe = strip(tdb.expr_of_operand(c_['term']['args'][1]))
-        if pe[0] == 'tuple' and len(pe[1]) == 2 and ('Option<usize>' in str(tdb.local_ty(strip(pe[1][0])[1]) if strip(pe[1][0])[0] == 'var' else '') or True):
-            r_ = strip(pe[1][1])
-            is_reg = (r_[0] == 'var' and tdb.local_ty(r_[1]) == REGION) or (r_[0] == 'agg' and r_[1].endswith('type_definition::Region')) or \
+        if pe[0] == 'agg' and len(pe[2]) == 2:
+            pe = ('tuple', [v_ for _k, v_ in pe[2]])        # a small struct instead of the tuple: same two components
+        if pe[0] == 'tuple' and len(pe[1]) == 2:
+            is_reg_ = lambda r_: (r_[0] == 'var' and tdb.local_ty(r_[1]) == REGION) or (r_[0] == 'agg' and r_[1].endswith('type_definition::Region')) or \
                 (r_[0] == 'call' and 'Region::' in r_[1])
-            if not is_reg:
+            if is_reg_(strip(pe[1][0])) and not is_reg_(strip(pe[1][1])):
+                pe = ('tuple', [pe[1][1], pe[1][0]])
+            if not is_reg_(strip(pe[1][1])):
                 continue
             nq += 1
             def chase(v_):
